@@ -147,6 +147,13 @@ func inputStreams(t *testing.T, st *report.Stats, sc streamCfg, fn func(stream s
 			rt.Fatalf("violation")
 		}
 	})
+	st.Rapid(t, "nested-in-term-position", sc.trees/2+1, func(rt *rapid.T) {
+		tree := gen.GenTree(gen.ParseCfg).Draw(rt, "tree")
+		toks := gen.NestInTermPosition(rt, gen.Print(tree, gen.Opts{}).Toks)
+		if !fn("nested-in-term-position", mkIn(gen.JoinSpace(toks), dfGen.Draw(rt, "df"), len(toks))) {
+			rt.Fatalf("violation")
+		}
+	})
 	all := append(gen.FullAlphabet(), gen.Term(gen.Word("NaN")), gen.Term(gen.Word("Inf")), gen.RawTerm("0x1p-2"), gen.RawTerm(`b\*`), gen.RawTerm(`a\\b`), gen.RawTerm("'"), gen.RawTerm(`"`), gen.RawTerm("/"), gen.RawTerm(","), gen.RawTerm("\x00"), gen.RawTerm("\xff"), gen.RawTerm("é"), gen.RawTerm("-٣"), gen.RawTerm("-３"), gen.RawTerm("٣"), gen.RawTerm("010"), gen.RawTerm("0x1F"))
 	st.Rapid(t, "random-strings", sc.strings, func(rt *rapid.T) {
 		var s string
